@@ -46,6 +46,21 @@ CLAIMED["C10"] = dict(
          "on valid UTF-8 only; short writes of Write::write outside the model. Axioms: propext, Classical.choice, Quot.sound.",
     design="6/C10")
 
+CLAIMED["C17"] = dict(
+    engine="lean+corr_kana+elisp-evaluator",
+    technique="Lean 4 proofs over the regenerated server and client tables: totality (every step consumes a character), "
+              "ASCII-only output for every input over the client's class (induction on the conversion loop), client-inverse of "
+              "every table unit by decide +kernel evaluating the client's model on the server's table + differential runs "
+              "against kana_alpha::convert and chokan.el",
+    text="C17_total, C17_ascii (full client class), C17_output_chars, C17_client_inverse (all rows but the recorded findings), "
+         "C17_katakana_rows are kernel-checked; the models are tied to conversion.rs/lib.rs (shape-checked by the translator, "
+         "run differentially on ~7000 inputs) and to chokan.el (evaluator).",
+    note="NFC is modelled on kana + combining (han)dakuten only; arbitrary Unicode is run on the implementation for totality but "
+         "not compared with the model. Concatenation-of-units and katakana/NFD equivalence are checked by the executable "
+         "oracle on the implementation, not proved. 16 client-inverse witnesses are known findings (known_findings.json). "
+         "Axioms: propext, Classical.choice, Quot.sound.",
+    design="6/C17")
+
 NOT_YET = "machinery for this property is not built yet in this round (work in progress; see DESIGN.md section 9)"
 
 
